@@ -7,6 +7,10 @@ import time
 
 HERE = os.path.dirname(os.path.dirname(os.path.abspath(__file__)))
 sys.path.insert(0, HERE)
+# development aid (mutant sweeps on scratch copies): analyse another tree than /repo.  The registered
+# commands never set it, so they always analyse /repo's current working tree.
+if os.environ.get('CCT_VERIF_REPO'):
+    sys.path.insert(0, os.environ['CCT_VERIF_REPO'])
 sys.setrecursionlimit(20000)
 
 
